@@ -3,7 +3,7 @@ Closed-form configurations are built through the public API with random paramete
 by the implementation and checked against the closed form (image point, equal optical paths,
 zero wavefront error, unit Strehl ratio); the same lenses and rays go through the model
 (`Model/Real.lean`) for the correspondence."""
-import math
+import math, zlib
 import numpy as np
 from .core import Driver, Ctx, audit, finish
 from . import lensgen, c02, realenc
@@ -33,6 +33,21 @@ def cfg_paraboloid(rng):
               {'radius': 'inf', 'thickness': 0, 'material': AIR}], ['EPD', epd])
     return {'name': 'paraboloid mirror, object at infinity', 'desc': d, 'image': (0.0, R / 2), 'real': True,
             'params': {'R': R, 'fno': fno}}
+
+
+def cfg_folded_paraboloid(rng):
+    """collimated light folded by a flat mirror, then a paraboloid met while travelling towards -z (R > 0)"""
+    R = dyadic(rng, 20, 400, 2)
+    f = R / 2
+    fno = rng.choice([0.6, 0.8, 1.0, 2.0, 5.0]) if rng.random() < 0.7 else rng.uniform(0.6, 10)
+    epd = f / fno
+    dist = dyadic(rng, 5, 300, 2)
+    d = base([{'radius': 'inf', 'thickness': 'inf', 'material': AIR},
+              {'radius': 'inf', 'thickness': -dist, 'material': {'kind': 'mirror'}, 'is_stop': True},
+              {'radius': R, 'conic': -1.0, 'thickness': R / 2, 'material': {'kind': 'mirror'}},
+              {'radius': 'inf', 'thickness': 0, 'material': AIR}], ['EPD', epd])
+    return {'name': 'paraboloid mirror behind a flat fold mirror, object at infinity', 'desc': d,
+            'image': (0.0, -dist + R / 2), 'real': True, 'params': {'R': R, 'fno': fno, 'dist': dist}}
 
 
 def cfg_ellipsoid(rng):
@@ -129,26 +144,30 @@ def cfg_aplanatic(rng):
             'virtual_surface': 1, 'n_obj': n1, 'n_img': n2, 'params': {'R': R, 'n2': n2, 'na': na}}
 
 
-CONFIGS = [cfg_paraboloid, cfg_ellipsoid, cfg_cassegrain, cfg_plano_hyperbolic, cfg_sphere_centre_mirror,
+CONFIGS = [cfg_paraboloid, cfg_folded_paraboloid, cfg_ellipsoid, cfg_cassegrain, cfg_plano_hyperbolic, cfg_sphere_centre_mirror,
            cfg_sphere_centre_refract, cfg_aplanatic]
 
 
 def check_config(ctx, cfg, quick):
     name = cfg['name']
     case = {'config': name, 'params': cfg['params'], 'desc': cfg['desc']}
+    post = cfg.get('post', [])
+    if post:
+        case['post'] = post
     try:
-        o = lensgen.build(cfg['desc'])
+        o = lensgen.build_case({'desc': cfg['desc'], 'post': post})
     except Exception as e:  # noqa
         ctx.count('build error ' + type(e).__name__)
         return None
     n = 24
     import random
-    px, py = c02.disk_points(random.Random(hash(name) & 0xffff), n)
+    px, py = c02.disk_points(random.Random(zlib.crc32(name.encode()) & 0xffff), n)
     rec = c02.trace_case(o, 0.0, px, py, W)
     if isinstance(rec, tuple):
         ctx.count('trace error ' + rec[1] + ' ' + name)
         return None
-    zi = cfg['image'][1]
+    sc = cfg.get('scale', 1.0)            # the whole system re-dimensioned by scale_system: every length scales
+    zi = cfg['image'][1] * sc
     scale = max(1.0, abs(zi))
     if cfg['real']:
         x, y, z = rec['x'][-1], rec['y'][-1], rec['z'][-1]
@@ -204,12 +223,12 @@ def check_config(ctx, cfg, quick):
                      float(np.max(opl) - np.min(opl)), 0.0)
             return None
     ctx.count('ok: ' + name)
-    return {'desc': cfg['desc'], 'Hy': 0.0, 'nray': n, 'seed': hash(name) & 0xffff, 'wi': 0}
+    return {'desc': cfg['desc'], 'post': post, 'Hy': 0.0, 'nray': n, 'seed': zlib.crc32(name.encode()) & 0xffff, 'wi': 0}
 
 
 def run(tier, seed, replay=None):
     ctx = Ctx('C06', tier, seed)
-    ctx.stats['rule'] = ('7 closed-form configurations (paraboloid, ellipsoid, Cassegrain paraboloid+hyperboloid, '
+    ctx.stats['rule'] = ('8 closed-form configurations (paraboloid, folded paraboloid, ellipsoid, Cassegrain paraboloid+hyperboloid, '
                          'plano-hyperbolic singlet, mirror and refracting sphere at the centre of curvature, aplanatic '
                          'points) x random radii, conics, indices in [1.3,4], apertures up to f/0.6 / NA 0.95; '
                          'distinct by parameter hash')
@@ -224,9 +243,13 @@ def run(tier, seed, replay=None):
     else:
         cfgs = [f(ctx.rng) for f in CONFIGS for _ in range(per)]
         for c in cfgs:
-            if ctx.rng.random() < 0.4:      # the same system reached through set_radius / set_conic
-                c['desc']['via_setters'] = True
+            if ctx.rng.random() < 0.4:      # the same system reached through set_radius / set_conic (either order)
+                c['desc']['via_setters'] = ctx.rng.choice([True, 'conic_first'])
                 c['name'] += ' (via setters)'
+            if ctx.rng.random() < 0.25:     # ... or re-dimensioned afterwards through scale_system
+                c['scale'] = ctx.rng.choice([0.5, 2.0, 2.5, 0.125, 3.0])
+                c['post'] = [['scale', c['scale']]]
+                c['name'] += ' (rescaled)'
     for cfg in cfgs:
         ctx.case({'config': cfg['name'], 'params': cfg['params']})
         mc = check_config(ctx, cfg, quick)
